@@ -28,6 +28,16 @@ type Ptr struct {
 	Off int64
 }
 
+// SymPtr addresses element Idx (symbolic, proven in range) of a small scalar
+// array: loads/stores through it become ite chains instead of forks.
+type SymPtr struct {
+	Blk    int
+	Base   int64
+	Stride int64
+	Idx    *Term
+	N      int64
+}
+
 type Slice struct {
 	P        Ptr
 	Len, Cap int64
